@@ -107,14 +107,16 @@ DoubleNot(mode) == UNION {NotForms(y) : y \in UNION {NotForms(x) : x \in S1(mode
 Trees(mode) == Atoms(mode) \cup D1(mode) \cup DoubleNot(mode) \cup (IF Depth >= 2 THEN D2(mode) ELSE {}) \cup (IF Depth >= 3 THEN D3(mode) ELSE {})
 
 \* Check over all keyword subsets (equal_to and one_of exclude each other)
+\* (defaults: none, a constant, and argument values -- [T], {'a': T}, [] -- on every failing path)
+CheckDefaults == {<<FALSE, NoDef>>, <<TRUE, D>>, <<TRUE, VC("list", <<VTarg(<<>>)>>)>>,
+                  <<TRUE, VC("dict", << Entry(A, VTarg(<<>>)) >>)>>, <<TRUE, VC("list", <<>>)>>}
 Checks ==
-  {PCheckS(sub, IF sub = <<>> THEN "list" ELSE "tuple", ty, inst, vals[1], vals[2], validate, hasdef, IF hasdef THEN D ELSE NoDef) :
-     sub \in {<<>>, <<A>>},
+  {PCheckS(sub, IF sub = <<>> THEN "list" ELSE "tuple", ty, inst, vals[1], vals[2], validate, df[1], df[2]) :
+     sub \in {<<>>, <<A>>}, df \in CheckDefaults,
      ty \in {<<>>, <<"int">>, <<"int", "str">>},
      inst \in {<<>>, <<"int">>, <<"str", "dict">>},
      vals \in {<< <<>>, FALSE >>, << <<VInt(1)>>, FALSE >>, << <<VInt(1), A>>, TRUE >>, << <<A>>, TRUE >>},
-     validate \in {<<>>, <<Yes>>, <<No>>, <<PPred("zero", 0)>>, <<Boom>>, <<Yes, No>>, <<Truthy, Yes>>},
-     hasdef \in BOOLEAN}
+     validate \in {<<>>, <<Yes>>, <<No>>, <<PPred("zero", 0)>>, <<Boom>>, <<Yes, No>>, <<Truthy, Yes>>}}
 
 \* construction: Optional(key) / Required(key) over key patterns, and the table of other
 \* documented constructor refusals
@@ -167,6 +169,7 @@ IsReused ==
      /\ \/ \A i \in 1..3 : spec.c[i].op = "and" /\ Len(spec.c[i].c) = 2 /\ spec.c[i].c[2].op = "val"
         \/ \A i \in 1..3 : spec.c[i].op = "pred"
   \/ spec.op = "switch" /\ Len(spec.cases) = 3
+  \/ spec.op = "check" /\ spec.hasdef /\ spec.def = VC("list", <<>>) /\ spec.sub = <<>> /\ spec.inst = <<>>    \* a fresh [] each time
 EvaluateAgain ==
   /\ phase = 2 /\ mode # "ctor" /\ IsReused /\ phase' = 3
   /\ target2' \in Targets
